@@ -83,6 +83,17 @@ func concRunCmd(args []string) int {
 	}
 	log.ev(map[string]interface{}{"e": "reset"})
 	key := func(i int) []byte { return []byte(fmt.Sprintf("conc-key-%03d", i%40)) }
+	// a populated store: enough table files in level 0 for compactions (explicit, or the background worker's) to have
+	// real work - outputs to write, inputs to delete - while the mix runs
+	prng := rand.New(rand.NewSource(*seed + 4242))
+	for i := 0; i < 260; i++ {
+		if i%7 == 3 {
+			eng.Delete(key(prng.Intn(1000)))
+		} else {
+			eng.Put(key(prng.Intn(1000)), []byte(fmt.Sprintf("prefill-value-%d", prng.Int())))
+		}
+	}
+	quiesce(5 * time.Second)
 	var stop atomic.Bool
 	var wg sync.WaitGroup
 	type gstat struct {
